@@ -23,6 +23,8 @@ for p in (VERIF, os.path.join(REPO, 'test'), os.path.join(REPO, 'src')):
         sys.path.insert(0, p)
 
 GHOST_SAMPLES = [-3, 0, 1, 2, 3, 7]
+TAINT = [0]     # >0 while inside a call that a unit test made outside the function's contract
+MAX_MONITORED_CALLS = 200      # per function; later calls pass through (the suite calls accessors millions of times)
 
 
 class Stats:
@@ -30,9 +32,11 @@ class Stats:
         self.calls = 0
         self.pre_evaluated = 0
         self.pre_failed = []
+        self.pre_failed_in_tests = 0
         self.post_evaluated = 0
         self.post_failed = []
         self.not_evaluable = 0
+        self.busy = False          # no monitoring of calls made while a clause is being evaluated
 
 
 def _names(pred):
@@ -67,6 +71,17 @@ def install(c, func, owner, raw, stats):
     def wrapper(*args, **kwargs):
         st = stats
         st.calls += 1
+        if st.calls > MAX_MONITORED_CALLS or st.busy:
+            return func(*args, **kwargs)
+        st.busy = True
+        caller = sys._getframe(1).f_code.co_filename
+        try:
+            return monitored(caller, *args, **kwargs)
+        finally:
+            st.busy = False
+
+    def monitored(caller, *args, **kwargs):
+        st = stats
         try:
             bound = inspect.signature(func).bind(*args, **kwargs)
             bound.apply_defaults()
@@ -74,13 +89,20 @@ def install(c, func, owner, raw, stats):
         except TypeError:
             return func(*args, **kwargs)
         usable = ghost_envs is not None
+        tainted_here = False
         if usable and c.requires is not None:
             for g in ghost_envs[:1]:
                 try:
                     ok = _call(c.requires, dict(env0, **g, trace=[], ghost={}))
                     st.pre_evaluated += 1
-                    if not ok and len(st.pre_failed) < 5:
-                        st.pre_failed.append(repr({k: repr(v)[:80] for k, v in env0.items()}))
+                    if not ok:
+                        # only call sites inside the repository's sources count: unit tests may call a
+                        # function outside the contract it has towards the program
+                        if TAINT[0] or os.sep + 'test' + os.sep in caller or 'exactly_lib_test' in caller:
+                            st.pre_failed_in_tests += 1
+                            tainted_here = True
+                        elif len(st.pre_failed) < 5:
+                            st.pre_failed.append(caller + ' ' + repr({k: repr(v)[:80] for k, v in env0.items()}))
                     if not ok:
                         usable = False
                 except Exception:
@@ -92,7 +114,13 @@ def install(c, func, owner, raw, stats):
                 old = _call(c.old, dict(env0, trace=[], ghost={}))
             except Exception:
                 usable = False
-        result = func(*args, **kwargs)
+        if tainted_here:
+            TAINT[0] += 1
+        try:
+            result = func(*args, **kwargs)
+        finally:
+            if tainted_here:
+                TAINT[0] -= 1
         if usable and not isinstance(result, types.GeneratorType):
             for name, clause in c.ensures.items():
                 if isinstance(clause, tuple):
@@ -170,6 +198,7 @@ def main():
            'preconditions_evaluated': sum(s.pre_evaluated for s in stats.values()),
            'postconditions_evaluated': sum(s.post_evaluated for s in stats.values()),
            'not_evaluable': sum(s.not_evaluable for s in stats.values()),
+           'preconditions_false_at_call_sites_in_test_code': sum(s.pre_failed_in_tests for s in stats.values()),
            'precondition_failures': {q: s.pre_failed for q, s in stats.items() if s.pre_failed},
            'postcondition_failures': {q: s.post_failed for q, s in stats.items() if s.post_failed},
            'never_called': sorted(q for q, s in stats.items() if s.calls == 0)}
